@@ -970,6 +970,8 @@ impl<'a> ParseState<'a, &'a str> {
     /// * ⚠️解析的同时跳过词项
     ///   * 乃至无需`?`语法糖（错误直接传递，而无需提取值）
     fn parse_term(&mut self) -> ParseResult<Term> {
+        #[cfg(narsese_verif)]
+        crate::verif_hooks::yield_point(1);
         first! {
             (self.starts_with) => (_);
             // 词项/外延集
